@@ -127,6 +127,30 @@ def judge(family, case, rec):
     if not (P == before).all():
         rec.violation("C09:input-mutated", family, case, "pdag_to_dag modified its argument", **ctx)
 
+    # debug=True only prints: the result / exception must be the same
+    if (sum(out) + p) % 16 == 5:
+        import io, contextlib
+        buf = io.StringIO()
+        try:
+            with contextlib.redirect_stdout(buf):
+                rd = U.pdag_to_dag(before.copy(), debug=True)
+            dbg = ("ok", tuple(gmat.masks(rd)))
+        except ValueError:
+            dbg = ("ValueError", None)
+        except Exception as e:
+            dbg = (type(e).__name__, None)
+        rec.count("keyword:debug=True")
+        norm = ("ok", got) if raised is None else ("ValueError" if raised != "other" else "other", None)
+        if dbg != norm:
+            rec.violation("C09:pdag_to_dag-debug-changes-result", family, case, "pdag_to_dag(P, debug=True) behaves differently from pdag_to_dag(P): %r vs %r" % (dbg[0], norm[0]), **ctx)
+        if ext:
+            try:
+                with contextlib.redirect_stdout(buf):
+                    Md = U.maximally_orient(before.copy(), debug=True)
+                if gmat.masks(Md) != G.union_graph(ext, p):
+                    rec.violation("C09:maximally_orient-debug-changes-result", family, case, "maximally_orient(P, debug=True) differs from the maximal orientation", **ctx)
+            except Exception as e:
+                rec.exception_violation("C09:maximally_orient-debug-exception", family, case, "maximally_orient(P, debug=True) raised", e)
     # has_consistent_extension
     try:
         h = U.has_consistent_extension(P)
